@@ -56,6 +56,14 @@ func (p *Path) call(in ssa.Instruction, cc *ssa.CallCommon, mode string) Val {
 	if b, ok := cc.Value.(*ssa.Builtin); ok {
 		return p.builtin(in, b, cc)
 	}
+	if fn, ok := cc.Value.(*ssa.Function); ok && mode == "call" {
+		switch specKeyOf(fn) {
+		case "sync.(*Pool).Get", "sync.(*Pool).Put":
+			if v, ok := p.poolCall(in, cc, fn.Name()); ok {
+				return v
+			}
+		}
+	}
 	var args []Val
 	if cc.IsInvoke() {
 		args = append(args, p.val(cc.Value))
@@ -380,9 +388,9 @@ func (p *Path) havocAll() {
 func (p *Path) havocAllExcept(spec *FuncSpec) {
 	pre := p.st.clone()
 	now := p.st.now
-	p.st = State{epoch: p.fx.fresh("e"), epochNow: now, heaps: map[string]string{}, now: now}
+	p.st = State{epoch: p.fx.fresh("e"), epochNow: now, heaps: map[string]string{}, now: now, prev: &pre}
 	p.fx.wroteAll = true
-	p.preserved = &pre
+	p.envStep()
 }
 
 // siteGhosts runs the ghost statements anchored at this call.
@@ -425,7 +433,11 @@ func (p *Path) siteGhosts(in ssa.Instruction, when string) {
 				p.specError("ghost assert", Clause{Src: g.Src, File: fx.spec.File}, err)
 				continue
 			}
-			p.oblige("assert", site+"."+when, g.Src, t)
+			kind := "assert"
+			if g.Label != "" {
+				kind = "assert." + g.Label
+			}
+			p.oblige(kind, site+"."+when, g.Src, t)
 			p.assume(t)
 		}
 	}
@@ -625,7 +637,6 @@ func (p *Path) unwind(explicit bool) {
 	} else {
 		q.unsupported("recovered panic in a function with results", nil)
 	}
-	q.cover("recovered", "")
 	q.finish()
 	// escapes
 	p.assume(pan)
@@ -636,4 +647,70 @@ func (p *Path) unwind(explicit bool) {
 		p.oblige("nopanic-escape", "", "no panic escapes this function", "false")
 	}
 	p.finish()
+}
+
+// poolCall: sync.Pool with a declared pool invariant (DESIGN 2.9). Get returns an exclusively owned item that
+// satisfies the invariant; Put requires the invariant.
+func (p *Path) poolCall(in ssa.Instruction, cc *ssa.CallCommon, method string) (Val, bool) {
+	env := p.fx.env
+	var inv *PoolInv
+	var owner Val
+	switch a := cc.Args[0].(type) {
+	case *ssa.FieldAddr:
+		st := a.X.Type().Underlying().(*types.Pointer).Elem()
+		fname := st.Underlying().(*types.Struct).Field(a.Field).Name()
+		on := ghostOwner(st)
+		for i := range env.specs.Pools {
+			pi := &env.specs.Pools[i]
+			if pi.Field == fname && pi.Owner != "" && (pi.Owner == on || strings.HasSuffix(on, "."+pi.Owner)) {
+				inv = pi
+				owner = p.val(a.X)
+			}
+		}
+	case *ssa.Global:
+		for i := range env.specs.Pools {
+			pi := &env.specs.Pools[i]
+			if pi.Owner == "" && pi.Field == a.Name() && pi.Pkg == a.Pkg.Pkg.Path() {
+				inv = pi
+			}
+		}
+	}
+	if inv == nil {
+		return Val{}, false
+	}
+	site := p.fx.site(in, "call("+method+")")
+	c := p.specCtx()
+	c.fn = nil
+	it := c.resolveType(inv.IType)
+	env.assumptions["assumed-contract:sync.Pool (Get returns New() or a previously Put item, exclusively owned; pool invariant "+inv.Field+")"] = true
+	vars := map[string]Val{}
+	if owner.T != "" {
+		vars["owner"] = owner
+	}
+	if method == "Get" {
+		item := p.fx.fresh("pooled")
+		p.declare(item, "Ref")
+		p.assume(fmt.Sprintf("(and (not (= %s nil)) (<= (stamp %s) %s) (= (ftag %s) 0))", item, item, p.st.now, item))
+		vars[inv.Item] = Val{T: item, Ty: it}
+		t, err := c.with(vars).EvalBool(inv.E)
+		if err != nil {
+			p.specError("poolinv", Clause{Src: inv.Src}, err)
+		} else {
+			p.assume(t)
+		}
+		p.siteGhosts(in, "after")
+		return Val{T: fmt.Sprintf("(%s %s)", env.mkIfaceFn(it), item), Ty: in.(ssa.Value).Type()}, true
+	}
+	// Put
+	x := p.val(cc.Args[1])
+	vars[inv.Item] = Val{T: "(iface_ref " + x.T + ")", Ty: it}
+	p.oblige("pool.type", site, "item put into the pool has the pool's item type", fmt.Sprintf("(= (iface_type %s) %d)", x.T, env.typeTagOf(it)))
+	t, err := c.with(vars).EvalBool(inv.E)
+	if err != nil {
+		p.specError("poolinv", Clause{Src: inv.Src}, err)
+	} else {
+		p.oblige("pool.inv", site, "pool invariant holds for the item returned to the pool: "+inv.Src, t)
+	}
+	p.siteGhosts(in, "after")
+	return Val{}, true
 }
